@@ -6,6 +6,7 @@ mod pending;
 mod oplog;
 mod node;
 mod disk;
+mod cluster;
 
 fn main() {
     let args: Vec<String> = std::env::args().collect();
@@ -20,6 +21,7 @@ fn main() {
         "oplog" => oplog::run(&args[2], &workdir),
         "node" => node::run(&args[2], &workdir),
         "disk" => disk::run(&args[2], &workdir),
+        "cluster" => cluster::run(&args[2], &workdir),
         d => {
             eprintln!("unknown driver {}", d);
             std::process::exit(2);
